@@ -27,6 +27,12 @@ def run(ctx):
         ctx.violation("seal:writefault:swallowed", {"swallowed_writes": s.get("swallowed"), "writes": s.get("writes"), "first": bad[0]},
                       what="%d of %d single-write failures of the index output were swallowed by the sealing writer (a truncated index would be published)" % (len(bad), s.get("writes", 0)))
     ntr, nev = lc.traces(ctx, "seal", rounds=8 if ctx.quick() else 30)
+    # the repository's own tests as drivers: the file operations of every fraction they touch
+    from checks import _suite
+    pkgs = ["./fracmanager/", "./storeapi/"] if ctx.quick() else ["./fracmanager/", "./storeapi/", "./proxyapi/", "./tests/integration_tests/", "./cmd/..."]
+    sfr, sev = _suite.validate(ctx, "seal", pkgs)
+    ntr += sfr
+    nev += sev
     ctx.cov["traces_validated_against_impl"] = summ["cases"] + ntr
     ctx.cov["evaluations"] = summ["evals"] + s.get("writes", 0) + nev
     ctx.cov["distinct_nontrivial"] = summ["nontrivial"] + s.get("writes", 0)
@@ -35,7 +41,7 @@ def run(ctx):
     ctx.cov["rule"] = ("crash states: every state of Lifecycle.tla (both SkipSortDocs modes, <=2 crashes) in the sealing/release phase, with torn temp files cut at a "
                        "seeded length and a missing/valid/corrupt/truncated .frac-cache, next to an untouched neighbour fraction; each is started twice with "
                        "an ingest in between; write faults: every single Write of the index output of a 70k-document fraction (2 LID blocks, 18 ID blocks) "
-                       "failing once; traces: %d recorded fraction life cycles" % ntr)
+                       "failing once; traces: %d recorded fraction life cycles (own driver + every fraction created by the repository's tests of fracmanager/storeapi, thorough: + integration tests)" % ntr)
     ctx.assumptions += ["file operations are atomic and durable in program order; only temp-file CONTENTS can be torn (final names are fsynced before the rename)",
                         "write faults are injected into the index output only; the sorted-docs output is a real file created inside frac.Seal and is not fault-injected",
                         "sync/rename failures are not injected"]
